@@ -6,6 +6,9 @@
 #include "rulelab.h"
 #include <unistd.h>
 #include <fcntl.h>
+#include <signal.h>
+#include <sys/prctl.h>
+#include <sys/wait.h>
 
 // ---------------------------------------------------------------- scenario --
 struct Step { std::string name; std::string rc; uint64_t out; bool faulted; char kind; };
@@ -16,6 +19,9 @@ struct Sc {
   std::vector<YR_COMPILER*> compilers; std::vector<YR_RULES*> rules; std::vector<YR_SCANNER*> scanners;
   std::vector<void*> yr_blocks;   // memory to be released with yr_free
   std::string comp_msgs; int comp_cb_errors = 0;
+  // run with faults off after the scenario stopped (for whatever reason), before anything is destroyed: returns ""
+  // if the surviving objects still behave, else what is wrong with them
+  std::function<std::string()> probe;
   int64_t f0 = 0;
   void arm() { if (armed) return; armed = true; g_alloc.attempts = 0; g_alloc.fail_at = plan_k; g_alloc.fail_from = plan_from; }
   void pre() { f0 = g_alloc.failed; }
@@ -241,6 +247,39 @@ static void s_matches_operator(Sc& s) {
     if (!s.S(round ? "yr_scanner_scan_mem#2" : "yr_scanner_scan_mem", rc, rec.text)) return;
   }
 }
+static int g_sleeper = 0;
+// a scanner must come out of a failed scan in the state a fresh scanner is in
+static std::string scanner_vs_fresh(YR_SCANNER* sc, YR_RULES* r, const std::string& buf) {
+  Recorder a, b; yr_scanner_set_callback(sc, recorder_callback, &a); yr_scanner_set_timeout(sc, 0);
+  int rca = yr_scanner_scan_mem(sc, (const uint8_t*) buf.data(), buf.size());
+  YR_SCANNER* f = NULL; if (yr_scanner_create(r, &f) != ERROR_SUCCESS) return "";
+  yr_scanner_set_callback(f, recorder_callback, &b); int rcb = yr_scanner_scan_mem(f, (const uint8_t*) buf.data(), buf.size()); yr_scanner_destroy(f);
+  if (rca != rcb) return std::string("scanner-differs-from-fresh: rc ") + yr_error_name(rca) + " vs " + yr_error_name(rcb);
+  if (a.text != b.text) return "scanner-differs-from-fresh: trace differs";
+  return "";
+}
+static void s_scan_proc_then_file(Sc& s) {
+  if (!sc_init(s)) return;
+  YR_RULES* r = sc_compile(s, frags_src({"elf", "entryp", "text"}) + "rule ep_low { condition: entrypoint < 100000 }\nrule elf_dyn { condition: elf.type == elf.ET_DYN }\n"); if (!r) return;
+  YR_SCANNER* sc = NULL; if (!ST(s, "yr_scanner_create", yr_scanner_create(r, &sc))) return;
+  s.scanners.push_back(sc);
+  s.probe = [sc, r] { return scanner_vs_fresh(sc, r, corpus_file(ELF_S)); };
+  s.arm();
+  Recorder rec; yr_scanner_set_callback(sc, recorder_callback, &rec); rec.with_module_tree = false; rec.with_match_data = false;
+  s.pre(); int rc = yr_scanner_scan_proc(sc, g_sleeper);
+  // what a sleeping process's memory matches is not part of the comparison, only the outcome of the call
+  s.S("yr_scanner_scan_proc", rc, "");
+}
+static void s_scanner_reuse_after_failure(Sc& s) {
+  if (!sc_init(s)) return;
+  YR_RULES* r = sc_compile(s, frags_src({"text", "regreedy", "count", "hash", "tests", "pe", "entryp"})); if (!r) return;
+  YR_SCANNER* sc = NULL; if (!ST(s, "yr_scanner_create", yr_scanner_create(r, &sc))) return;
+  s.scanners.push_back(sc);
+  std::string text = frags_plants({"text", "regreedy", "count"});
+  s.probe = [sc, r, text] { std::string p = scanner_vs_fresh(sc, r, text); return p.empty() ? scanner_vs_fresh(sc, r, corpus_file(ELF_S)) : p; };
+  s.arm();
+  { Recorder rec; yr_scanner_set_callback(sc, recorder_callback, &rec); s.pre(); int rc = yr_scanner_scan_mem(sc, (const uint8_t*) corpus_file(PE_TINY).data(), corpus_file(PE_TINY).size()); if (!s.S("yr_scanner_scan_mem", rc, rec.text)) return; }
+}
 static void s_stats_profiling(Sc& s) {
   if (!sc_init(s)) return;
   YR_RULES* r = sc_compile(s, frags_src({"text", "hexjump", "regreedy"})); if (!r) return;
@@ -268,7 +307,7 @@ static const Scenario SCENARIOS[] = {
   {"scan_text", s_scan_text}, {"scan_regex", s_scan_regex}, {"scan_cond", s_scan_cond}, {"scan_many_matches", s_scan_many_matches},
   {"scan_pe", s_scan_pe}, {"scan_pe_signed", s_scan_pe_signed}, {"scan_elf", s_scan_elf}, {"scan_dotnet", s_scan_dotnet},
   {"scan_macho", s_scan_macho}, {"scan_dex", s_scan_dex}, {"scan_small_mods", s_scan_small_mods},
-  {"scan_entry_points", s_scan_entry_points}, {"stats_profiling", s_stats_profiling}, {"matches_operator", s_matches_operator},
+  {"scan_entry_points", s_scan_entry_points}, {"stats_profiling", s_stats_profiling}, {"matches_operator", s_matches_operator}, {"scan_proc_then_file", s_scan_proc_then_file}, {"scanner_reuse_after_failure", s_scanner_reuse_after_failure},
 };
 static const int NSCEN = sizeof(SCENARIOS) / sizeof(SCENARIOS[0]);
 
@@ -313,12 +352,13 @@ static RunOut run_case(int scen, int64_t k, bool from) {
     SCENARIOS[scen].fn(s);
     int64_t attempts = s.armed ? g_alloc.attempts : 0;
     int64_t failed = g_alloc.failed;
-    s.finish();
     g_alloc.fail_at = -1; g_alloc.fail_from = false;
+    std::string probe_out = s.probe ? s.probe() : std::string();
+    s.finish();
     J res = J::obj();
     J st = J::arr();
     for (auto& x : s.steps) { J e = J::obj(); e.set("n", x.name); e.set("rc", x.rc); char hb[20]; snprintf(hb, sizeof hb, "%016llx", (unsigned long long) x.out); e.set("h", hb); e.set("f", x.faulted); e.set("k", std::string(1, x.kind)); st.push(e); }
-    res.set("steps", st); res.set("attempts", attempts); res.set("failed", failed);
+    res.set("steps", st); res.set("attempts", attempts); res.set("failed", failed); res.set("probe", probe_out);
     J leaks = J::arr(); std::map<std::string, std::pair<int, size_t>> agg;
     for (auto& r : sim_alloc_live()) { auto& a = agg[sim_bt_chain(r.bt, 1, 3)]; a.first++; a.second += r.size; }
     for (auto& kv : agg) { J e = J::obj(); e.set("chain", kv.first); e.set("n", kv.second.first); e.set("bytes", kv.second.second); leaks.push(e); }
@@ -378,6 +418,7 @@ static std::vector<Viol> judge(const RunOut& base, const RunOut& o) {
     const J& l = o.res["leaks"][i];
     v.push_back({"leak", "leak|fail@" + fc + "|leaked@" + l["chain"].str(), std::to_string(l["n"].num()) + " block(s), " + std::to_string(l["bytes"].num()) + " bytes still allocated after destroy+finalize"});
   }
+  if (!o.res["probe"].str().empty()) v.push_back({"unusable-after", "unusable|surviving-object|" + o.res["probe"].str().substr(0, o.res["probe"].str().find(':')) + "|fail@" + fc, "an object that survived the failed call no longer behaves like a fresh one: " + o.res["probe"].str()});
   if (o.res["followup"].str() != "ok") v.push_back({"unusable-after", "unusable|" + o.res["followup"].str() + "|fail@" + fc, "library not usable after the failure: " + o.res["followup"].str()});
   else if (o.res["followup_live"].num() != 0) v.push_back({"unusable-after", "unusable|followup-leak|fail@" + fc, "follow-up scenario leaked"});
   return v;
@@ -388,6 +429,7 @@ static J replay_of(int scen, int64_t k, bool from) { J r = J::obj(); r.set("engi
 int main(int argc, char** argv) {
   Args args(argc, argv);
   sim_symbolize((void*) &main);   // load symbols before any fork
+  { int p = fork(); if (p == 0) { prctl(PR_SET_PDEATHSIG, SIGKILL); int dn = open("/dev/null", O_RDWR); for (int fd = 0; fd < 256; fd++) if (fd != dn) { if (fd <= 2) dup2(dn, fd); else close(fd); } execl("/bin/sleep", "sleep", "100000", (char*) NULL); _exit(127); } g_sleeper = p; usleep(30000); atexit([] { if (g_sleeper > 0) { kill(g_sleeper, SIGKILL); waitpid(g_sleeper, NULL, 0); } }); }
   std::string cmd = args.pos.empty() ? "run" : args.pos[0];
   if (cmd == "list") { for (int i = 0; i < NSCEN; i++) { RunOut b = run_case(i, -1, false); printf("%-22s N=%lld steps=%zu ok=%d\n", SCENARIOS[i].name, (long long) b.res["attempts"].num(), b.res["steps"].size(), b.ok); if (!b.ok) printf("%s\n", b.iso.err.substr(0, 2000).c_str()); } return 0; }
   if (cmd == "replay") {
